@@ -30,6 +30,7 @@ def handle (op : String) (req : Json) : Except String Json := do
                                   ("net", matJson n n g), ("pop", pop)]))
       | .error e, _ => pure (errJson (errStr e))
       | _, .error e => pure (errJson (errStr e))
+  | "eq_probs" => Drv.C07.handle "eq_probs" req      -- exact stationary vector (same code as C07.eq_probs)
   | _ => throw s!"bad-op C08.{op}"
 
 end Drv.C08
